@@ -35,6 +35,24 @@ const LOCAL: u64 = u64::MAX;
 /// Peer index whose dictated key is the lookup target.
 const TARGET: u64 = u64::MAX - 1;
 
+/// Read-only view of a table for the coordinator-level box (c16 area, `t` operations): every non-empty bucket with
+/// `(peer, connection type, has an address)` per node in storage order.
+pub(crate) fn verif_dump(table: &RoutingTable) -> Vec<(usize, Vec<(PeerId, ConnectionType, bool)>)> {
+    (0..table.buckets.len())
+        .filter(|i| !table.buckets[*i].verif_nodes().is_empty())
+        .map(|i| {
+            (
+                i,
+                table.buckets[i]
+                    .verif_nodes()
+                    .iter()
+                    .map(|n| (n.peer, n.connection, !n.address_store.is_empty()))
+                    .collect(),
+            )
+        })
+        .collect()
+}
+
 pub struct TableBox {
     table: Option<RoutingTable>,
 }
